@@ -10,6 +10,10 @@ from .exec_instr import InstrMixin
 from .exec_call import CallMixin
 
 
+import os as _os
+BLOCK_COVER = bool(_os.environ.get('VERIF_BLOCK_COVER'))
+
+
 def slugify(s, n=48):
     s = re.sub(r'\s+', '', s)
     s = re.sub(r'[^A-Za-z0-9_\[\]:.+\-*/%<>=!&|()βα,]', '_', s)
@@ -622,6 +626,11 @@ class FuncRun(ExprMixin, InstrMixin, CallMixin):
             blk = cfg.blocks[b]
             ctx['edge_pcs'] = edge_pcs
             ctx['block'] = b
+            if BLOCK_COVER and not self.mute and ctx['frame'] == self.top_frame:
+                # developer aid (VERIF_BLOCK_COVER=1, never set by a registered check): is this block reachable under
+                # the contract's precondition?  An unreachable block is code no obligation speaks about.
+                pos_ = next((i_.get('pos') for i_ in blk['instrs'] if i_.get('pos')), '')
+                self.cover('block%d-%s@%s' % (b, blk.get('comment', ''), pos_), st)
             outs = self.exec_block(ctx, blk, st)
             for succ, s2 in outs:
                 if not self.mute and ctx['spec'] is not None:
@@ -1149,7 +1158,9 @@ class FuncRun(ExprMixin, InstrMixin, CallMixin):
                         e_ = bound(env.state)
                         v = env.state.cells[cid]
                         b_ = T.le(v, e_ if strict else T.add(e_, T.ONE))
-                        return b_ if plain else T.or_(b_, T.le(v, v0))
+                        # (a length is non-negative, but that fact is attached to the value where the real header loads
+                        # it, not here: keep the candidate a tautology at entry without it)
+                        return T.or_(b_, T.lt(e_, T.ZERO)) if plain else T.or_(b_, T.le(v, v0))
                     out.append(('%s <= max(loop bound%s, its value at loop entry)' % (defs[addr].get('name') or addr, '' if cnd['tok'] == '<' else ' + 1'), mk3, guard))
         return out
 
